@@ -14,8 +14,149 @@ FUNCS = ["isotope.isotopic_distribution", "isotope._calculate_elemental_distribu
          "isotope.merge_isotopic_distributions", "chem_util.chem_mass", "constants.ATOMIC_SYMBOL_TO_ISOTOPE_MASSES_AND_ABUNDANCES"]
 
 COMPS_Q = [{"C": 1}, {"C": 2}, {"C": 1, "H": 2}, {"H": 2, "O": 1}, {"C": 2, "H": 3, "N": 1, "O": 1}, {"S": 1, "H": 1}, {"C": 3, "H": 3, "S": 1, "P": 1}]
+# isotope-labelled elements (every spelling of deuterium/tritium): one peak at that isotope's mass, offset 0 in the neutron view
+COMPS_L = [{"13C": 1, "H": 2}, {"2H": 2, "O": 1}, {"D": 2, "O": 1}, {"T": 1, "3H": 1, "C": 1}, {"15N": 1, "18O": 1, "34S": 1}]
+COMPS_Q = COMPS_Q + COMPS_L
 COMPS_T = COMPS_Q + [{"C": 3, "H": 3, "N": 1, "O": 2}, {"Cl": 2, "C": 1}, {"C": 6, "H": 6}, {"N": 3, "O": 3}, {"C": 2, "S": 2}]
 SMALL = [{"C": 1}, {"C": 2}, {"C": 1, "H": 2}, {"H": 2, "O": 1}, {"C": 1, "N": 1, "H": 1}, {"Cl": 2}]
+
+
+def _mono(el: str):
+    """monoisotopic mass of an element symbol or of an isotope label, from the independent table"""
+    from .. import oracles as O
+    return O.mono(el) if el in O.ISOTOPES else O.isotope(el)
+
+
+def _binning_job(args) -> Obligation:
+    """neutron-offset view == mass view binned by nominal mass (requested abundance symbolic, no pruning)"""
+    comp, is_sum = args
+    import z3
+    from .. import symreal as SR
+    from ..e2lib import run_e2
+    from peptacular.isotope import isotopic_distribution
+
+    def views(A):
+        mv = isotopic_distribution(dict(comp), min_abundance_threshold=0.0, distribution_abundance=A, is_abundance_sum=is_sum)
+        nv = isotopic_distribution(dict(comp), min_abundance_threshold=0.0, use_neutron_count=True, distribution_abundance=A, is_abundance_sum=is_sum)
+        return mv, nv
+
+    def bins(mv):
+        out: Dict[int, Any] = {}
+        base = float(sum(float(_mono(el)) * cnt for el, cnt in comp.items()))
+        for m, a in mv:
+            k = int(round(float(m) - base))
+            out[k] = out[k] + a if k in out else a
+        return out
+
+    def fn():
+        A = SR.real("abundance")
+        SR.assume(z3.And(A.t > 0, A.t <= 1000000))
+        mv, nv = views(A)
+        b = bins(mv)
+        if sorted(b) != [k for k, _ in nv]:
+            fn.why = f"offsets {[k for k, _ in nv]} vs nominal-mass bins {sorted(b)}"
+            return False
+        # the mass view scales its largest *resolved* peak, the neutron view its largest bin: compare shapes (ratios to the total)
+        tot_m = 0
+        for _, a in mv:
+            tot_m = tot_m + a
+        tot_n = 0
+        for _, a in nv:
+            tot_n = tot_n + a
+        props = []
+        for k, a in nv:
+            props.append(SR.close(a * tot_m, b[k] * tot_n, 1e-9 * 1e12))
+        return z3.And(*props)
+
+    fn.why = ""
+
+    def replay(model):
+        A = model.get("abundance", 1.0)
+        from ..e2lib import native_call
+        code = r"""
+from vf.props import c14
+def main(p):
+    from peptacular.isotope import isotopic_distribution
+    comp, A, is_sum = p["comp"], p["A"], p["is_sum"]
+    mv = isotopic_distribution(dict(comp), min_abundance_threshold=0.0, distribution_abundance=A, is_abundance_sum=is_sum)
+    nv = isotopic_distribution(dict(comp), min_abundance_threshold=0.0, use_neutron_count=True, distribution_abundance=A, is_abundance_sum=is_sum)
+    base = float(sum(float(c14._mono(el)) * cnt for el, cnt in comp.items()))
+    b = {}
+    for m, a in mv:
+        k = int(round(m - base)); b[k] = b.get(k, 0.0) + a
+    tm, tn = sum(a for _, a in mv), sum(a for _, a in nv)
+    bad = sorted(b) != [k for k, _ in nv] or any(abs(a / tn - b[k] / tm) > 1e-9 for k, a in nv)
+    return {"violated": bool(bad), "detail": f"isotopic_distribution({comp}, abundance={A}, sum={is_sum}): neutron view {nv} vs mass view binned by nominal mass (offset from the monoisotopic mass {base}) {sorted(b.items())}"}
+"""
+        res = native_call(code, {"comp": comp, "A": A, "is_sum": is_sum})
+        return res["violated"], res["detail"], None
+
+    ob = run_e2("binning/" + "".join(f"{k}{v}" for k, v in comp.items()) + f"/sum={int(is_sum)}", "the neutron-offset view is the mass view binned by nominal mass",
+                fn, functions=FUNCS, bounds="requested abundance in (0,1e6] symbolic; composition and isotope table concrete; no pruning", replay=replay, budget_s=60)
+    if ob.cex is not None:
+        ob.cex["args"] = list(args)
+    return ob
+
+
+def _label_job(args) -> Obligation:
+    """every isotope label of the table: a single peak at that isotope's mass (= chem_mass of the label), offset 0 in the neutron view"""
+    labels = args
+    import z3
+    from .. import symreal as SR
+    from .. import oracles as O
+    from ..e2lib import run_e2
+    from peptacular.isotope import isotopic_distribution
+    from peptacular.chem.chem_util import chem_mass
+
+    def want(l):
+        w = [chem_mass({l: 2})]
+        try:
+            w.append(2 * float(O.isotope(l)))
+        except KeyError:
+            pass
+        return w
+
+    def fn():
+        A = SR.real("abundance")
+        SR.assume(z3.And(A.t > 0, A.t <= 1000000))
+        props = []
+        for l in labels:
+            mv = isotopic_distribution({l: 2}, distribution_abundance=A)
+            nv = isotopic_distribution({l: 2}, use_neutron_count=True, distribution_abundance=A)
+            if len(mv) != 1 or len(nv) != 1 or nv[0][0] != 0 or any(abs(float(mv[0][0]) - w) > 1e-4 for w in want(l)):
+                fn.why = f"label {l}: mass view {mv}, neutron view {nv}, isotope mass x2 = {want(l)}"
+                return False
+            props.append(SR.close(mv[0][1], A, 1e-9 * 1e6))
+            props.append(SR.close(nv[0][1], A, 1e-9 * 1e6))
+        return z3.And(*props)
+
+    fn.why = ""
+
+    def replay(model):
+        from ..e2lib import native_call
+        code = r"""
+from vf import oracles as O
+def main(p):
+    from peptacular.isotope import isotopic_distribution
+    from peptacular.chem.chem_util import chem_mass
+    bad = []
+    for l in p["labels"]:
+        mv = isotopic_distribution({l: 2}); nv = isotopic_distribution({l: 2}, use_neutron_count=True)
+        w = [chem_mass({l: 2})]
+        try: w.append(2 * float(O.isotope(l)))
+        except KeyError: pass
+        if len(mv) != 1 or len(nv) != 1 or nv[0][0] != 0 or any(abs(mv[0][0] - x) > 1e-4 for x in w):
+            bad.append(f"isotopic_distribution({{{l!r}: 2}}) = {mv} (neutron view {nv}); two atoms of that isotope weigh {w}")
+    return {"violated": bool(bad), "detail": "; ".join(bad[:3])}
+"""
+        res = native_call(code, {"labels": labels})
+        return res["violated"], res["detail"], None
+
+    ob = run_e2(f"labels/{labels[0]}..{labels[-1]}", "an isotope-labelled element is a single peak at that isotope's mass (offset 0 in the neutron view)",
+                fn, functions=FUNCS, bounds=f"{len(labels)} isotope labels of the table x 2 atoms; requested abundance symbolic", replay=replay, budget_s=60)
+    if ob.cex is not None:
+        ob.cex["args"] = list(args)
+    return ob
 
 
 def _scaling_job(args) -> Obligation:
@@ -72,7 +213,7 @@ def _scaling_job(args) -> Obligation:
         # lightest peak = monoisotopic mass of the composition incl. particles (no pruning of the lightest peak for C,H,N,O,S,P:
         # it is the most abundant combination of lightest isotopes and survives any threshold <= 1 only if it is the base peak;
         # the clause is therefore asserted when the threshold is 0)
-        mono = sum(float(O.mono(el)) * cnt for el, cnt in comp.items())
+        mono = sum(float(_mono(el)) * cnt for el, cnt in comp.items())
         if not use_n or out_m:
             want = mono
             if with_particles and not (use_n and out_m):
@@ -106,7 +247,8 @@ def main(p):
         if ms != sorted(ms): bad.append("not sorted by mass")
         if p["is_sum"] and abs(sum(ab) - A) > 1e-6 * max(1, A): bad.append(f"sum {sum(ab)} != {A}")
         if not p["is_sum"] and abs(max(ab) - A) > 1e-6 * max(1, A): bad.append(f"max {max(ab)} != {A}")
-        mono = sum(float(O.mono(e)) * c for e, c in comp.items())
+        from vf.props.c14 import _mono
+        mono = sum(float(_mono(e)) * c for e, c in comp.items())
         if th == 0 and (not p["use_n"] or p["out_m"]):
             want = mono
             if p["with_particles"] and not (p["use_n"] and p["out_m"]):
@@ -226,7 +368,7 @@ def _merge_job(args) -> Obligation:
 
 def _dispatch(job):
     kind, args = job
-    return {"scaling": _scaling_job, "abundance": _abundance_job, "merge": _merge_job}[kind](args)
+    return {"scaling": _scaling_job, "abundance": _abundance_job, "merge": _merge_job, "binning": _binning_job, "labels": _label_job}[kind](args)
 
 
 def run(tier: str, seed: int, only=None) -> Report:
@@ -240,6 +382,15 @@ def run(tier: str, seed: int, only=None) -> Report:
     for comp in SMALL:
         for el in comp:
             jobs.append(("abundance", (comp, el)))
+    for comp in comps:
+        for is_sum in (False, True):
+            jobs.append(("binning", (comp, is_sum)))
+    import re as _re
+    import peptacular.constants as K
+    labels = sorted(k for k in K.ATOMIC_SYMBOL_TO_ISOTOPE_MASSES_AND_ABUNDANCES if _re.match(r"^\d", k) or k in ("D", "T"))
+    per = 40
+    for i in range(0, len(labels), per):
+        jobs.append(("labels", labels[i:i + per]))
     jobs += [("merge", ([1.0, 2.0], [2.0, 3.0])), ("merge", ([1.0, 2.5, 4.0], [0.5, 2.5])), ("merge", ([3.0, 1.0], [1.0, 3.0, 2.0])), ("merge", ([], [1.0]))]
     known = tuple(f["id"] for f in load_known_findings(PID))
     rep = Report(
